@@ -75,6 +75,11 @@ From OV Require Proofs.SrcEqMesh.
                                      |read back - written| <= 10^-N / 2 + u |decimal|.  That the standard library's
                                      from_str satisfies the bound (correct rounding, no overflow/underflow) is assumed,
                                      not proved; beyond the bound on the entries nothing is proved here
+     file_roundtrip_fix_nearest      NO bound on the entries: if the entries lie in a set F (the binary64 numbers) and
+                                     fl y is at least as close to y as every element of F (from_str rounds to nearest),
+                                     then fmt (fl (rnd x)) = fmt x for every x in F -- at a tie the printed last digit is
+                                     even, so the tie read back prints the same -- hence second file = first file, second
+                                     round trip = identity, and |read back - written| <= 10^-N
    Mesh2D (Proofs/MeshIO3Out2.v):
      output_var2_layout              output_var writes, for every j, one line x_i y_j v(i,j) per i and an empty line;
                                      a variable that does not exist panics (Index) on the first node
@@ -84,7 +89,7 @@ From OV Require Proofs.SrcEqMesh.
      output_var2_is_projection       the file of output_var = the file of output with the other variables' columns removed
    NOT modelled: the sign of a negative value that rounds to zero (Rust prints "-0.00" and reads -0.0; rationals have no
    signed zero, the model's token is unsigned), NaN / infinities; the binary64 rounding of f64::from_str is a parameter
-   (fl) of the last four formatter theorems and absent from the others (exact rational arithmetic).
+   (fl) of the last five formatter theorems and absent from the others (exact rational arithmetic).
    --------------------------------------------------------------------------------------------------------------- *)
 From Coq Require Import ZArith QArith Qabs Qcanon.
 Close Scope Qc_scope.
@@ -678,6 +683,51 @@ Proof.
   - intros x Hx. cbn in Hx. repeat (destruct Hx as [<-|Hx]; [vm_compute; reflexivity|]). destruct Hx.
   - intros E. apply (f_equal this) in E. vm_compute in E. discriminate.
 Qed.
+
+Theorem file_roundtrip_fix_nearest : forall (fl : Qc -> Qc) (F : Qc -> Prop),
+  (forall y f : Qc, F f -> (Qabs (fl y - y) <= Qabs (f - y))%Q) ->
+  forall (N : nat),
+  (forall x : Qc, F x -> fmt_fix N (rnd_fix_fl fl N x) = fmt_fix N x /\
+                         (Qabs (rnd_fix_fl fl N x - x) <= 1 / inject_Z (10 ^ Z.of_nat N))%Q) /\
+  forall m m0 m1 : mesh1 AQ AQ,
+  (forall x : Qc, In x (m1_nodes m ++ concat (m1_vars m)) -> F x) ->
+  wf1 m -> m1_nvars m0 = m1_nvars m -> m1_nvars m1 = m1_nvars m ->
+  Forall (fun r => length r = m1_nvars m0) (m1_vars m0) ->
+  Forall (fun r => length r = m1_nvars m1) (m1_vars m1) ->
+  exists lines m',
+    @output1 AQ AQ ftok (fmt_fix N) (fmt_fix N) m = Ok lines /\
+    @read1 AQ ftok (parse_fix_fl fl N) m0 (concat lines) = Ok m' /\
+    m' = map_mesh1 (A:=AQ) (rnd_fix_fl fl N) m /\
+    @output1 AQ AQ ftok (fmt_fix N) (fmt_fix N) m' = Ok lines /\
+    @read1 AQ ftok (parse_fix_fl fl N) m1 (concat lines) = Ok m'.
+Proof. intros fl F Hn N. split.
+  - intros x HF. split; [exact (MeshIO3Fl.fmt_rnd_fix_proj fl F Hn N x HF) | exact (MeshIO3Fl.rnd_fix_proj_err fl F Hn N x HF)].
+  - intros m m0 m1. exact (MeshIO3Fl.file_roundtrip_fix_proj_twice fl F Hn N m m0 m1). Qed.
+Check file_roundtrip_fix_nearest : forall (fl : Qc -> Qc) (F : Qc -> Prop),
+  (forall y f : Qc, F f -> (Qabs (fl y - y) <= Qabs (f - y))%Q) ->
+  forall (N : nat),
+  (forall x : Qc, F x -> fmt_fix N (rnd_fix_fl fl N x) = fmt_fix N x /\
+                         (Qabs (rnd_fix_fl fl N x - x) <= 1 / inject_Z (10 ^ Z.of_nat N))%Q) /\
+  forall m m0 m1 : mesh1 AQ AQ,
+  (forall x : Qc, In x (m1_nodes m ++ concat (m1_vars m)) -> F x) ->
+  wf1 m -> m1_nvars m0 = m1_nvars m -> m1_nvars m1 = m1_nvars m ->
+  Forall (fun r => length r = m1_nvars m0) (m1_vars m0) ->
+  Forall (fun r => length r = m1_nvars m1) (m1_vars m1) ->
+  exists lines m',
+    @output1 AQ AQ ftok (fmt_fix N) (fmt_fix N) m = Ok lines /\
+    @read1 AQ ftok (parse_fix_fl fl N) m0 (concat lines) = Ok m' /\
+    m' = map_mesh1 (A:=AQ) (rnd_fix_fl fl N) m /\
+    @output1 AQ AQ ftok (fmt_fix N) (fmt_fix N) m' = Ok lines /\
+    @read1 AQ ftok (parse_fix_fl fl N) m1 (concat lines) = Ok m'.
+Print Assumptions file_roundtrip_fix_nearest.
+(* F = the multiples of 1/8, fl = nearest multiple of 1/8; 97/8 = 12.125 is a tie at two decimals: printed 12.12,
+   parsed as 12.12 = 303/25, rounded by the parser to 12.125 again; 1000001/8 is far beyond any relative bound *)
+Example file_roundtrip_fix_nearest_nonvacuous :
+  (forall y f : Qc, F8 f -> (Qabs (fl8 y - y) <= Qabs (f - y))%Q) /\
+  (forall x : Qc, In x (m1_nodes ex_f8 ++ concat (m1_vars ex_f8)) -> F8 x) /\
+  fmt_fix 2 (q 97 8) = FTok false 1212 /\
+  this (rnd_fix_fl fl8 2 (q 97 8)) = (97 # 8)%Q /\ this (rnd_fix 2 (q 97 8)) = (303 # 25)%Q.
+Proof. split; [exact fl8_nearest | exact proj_run]. Qed.
 
 Theorem output_var2_layout : forall (A : Arith) (tok : Type) (fmt : A -> tok) (m : mesh2 A A) var,
   wf2 m ->
